@@ -594,6 +594,12 @@ impl Client {
                 t[(self.var % 32) as usize] ^= 1 << (self.var % 8);
                 (rsa_enc(&pk, &secret), rsa_enc(&pk, &t))
             }
+            ("emptyToken", Some(pk)) => (rsa_enc(&pk, &secret), rsa_enc(&pk, &[])),
+            ("prefixToken", Some(pk)) => {
+                let n = [1usize, 16, 31][(self.var % 3) as usize];
+                self.var_note = format!("prefixToken:{n}");
+                (rsa_enc(&pk, &secret), rsa_enc(&pk, &token[..n.min(token.len())]))
+            }
             ("staleToken", Some(pk)) => {
                 let t = STALE_TOKEN.lock().unwrap().clone().unwrap_or_else(|| vec![9; 32]);
                 (rsa_enc(&pk, &secret), rsa_enc(&pk, &t))
@@ -1058,6 +1064,9 @@ pub struct Timed {
     pub wstall: Option<(u64, usize, u64)>,
     /// accept every clientbound write in two portions (k bytes, then the rest)
     pub wsplit: Option<usize>,
+    /// pipelined client: the Encryption Response is cut at this offset; its rest arrives in ONE segment together with the
+    /// (already encrypted) Login Acknowledged and Client Information -- the plaintext/ciphertext switch falls inside a segment
+    pub pipeline: Option<usize>,
 }
 
 impl Timed {
@@ -1073,6 +1082,7 @@ impl Timed {
             seg: v.get("seg").and_then(|p| Some((p["frame"].as_str()?.to_string(), p["cut"].as_u64()? as usize, p["pause"].as_u64()?))),
             wstall: v.get("wstall").and_then(|p| Some((p["at"].as_u64()?, p["k"].as_u64()? as usize, p["release"].as_u64()?))),
             wsplit: v.get("wsplit").and_then(|p| p.as_u64()).map(|k| k as usize),
+            pipeline: v.get("pipeline").and_then(|p| p.as_u64()).map(|k| k as usize),
         }
     }
 }
@@ -1174,13 +1184,30 @@ pub async fn run_round(
         }
         Some(tm) => {
             // lock-step login prefix (everything up to and including the Encryption Response)
+            let mut pipelined = false;
             for ev in events {
                 if ev["e"] != "rx" {
                     continue;
                 }
                 if let Action::Send(b) = cl.build(&ev["f"]) {
                     cl.push(json!({"e": "rx", "f": ev["f"], "t": 0}));
-                    end.push(&b);
+                    if let (Some(cut), true) = (tm.pipeline, ev["f"]["k"] == "EncryptionResponse") {
+                        let ack = json!({"k": "LoginAck"});
+                        let info = json!({"k": "ClientInfo", "locale": tm.locale});
+                        let mut rest = b[cut.min(b.len())..].to_vec();
+                        for f in [&ack, &info] {
+                            if let Action::Send(x) = cl.build(f) {
+                                rest.extend_from_slice(&x);
+                                cl.push(json!({"e": "rx", "f": f, "t": 0}));
+                            }
+                        }
+                        end.push(&b[..cut.min(b.len())]);
+                        settle().await;
+                        end.push(&rest);
+                        pipelined = true;
+                    } else {
+                        end.push(&b);
+                    }
                 }
                 settle().await;
                 cl.drain(0);
@@ -1189,10 +1216,11 @@ pub async fn run_round(
                 end.plan_writes((0..64).map(|_| crate::mock::WriteOutcome::Accept(k)).collect());
             }
             // (time in s, frame) actions; frames wait behind a partially sent one (the byte stream is ordered)
-            let mut actions: Vec<(u64, Value)> = vec![
-                (tm.ack_at, json!({"k": "LoginAck"})),
-                (tm.info_at, json!({"k": "ClientInfo", "locale": tm.locale})),
-            ];
+            let mut actions: Vec<(u64, Value)> = if pipelined {
+                vec![]
+            } else {
+                vec![(tm.ack_at, json!({"k": "LoginAck"})), (tm.info_at, json!({"k": "ClientInfo", "locale": tm.locale}))]
+            };
             if let Some((at, size)) = tm.plugin {
                 actions.push((at, json!({"k": "PluginMessage", "size": size})));
             }
@@ -1331,12 +1359,14 @@ fn fanout_of(tr: &[Value], full: bool) -> u64 {
                     "bodyFlip" => if full { 1600 } else { 6 },
                     "otherSecret" => 4,
                     "expired" => 3,
+                    "fresh" | "justInside" | "otherPort" | "jar" => 3,
                     _ => 1,
                 });
             }
             if f["k"] == "EncryptionResponse" {
                 n = n.max(match f["c"].as_str().unwrap_or("") {
                     "badSecretLen" => 4,
+                    "prefixToken" => 3,
                     "wrongToken" => if full { 8 } else { 2 },
                     _ => 1,
                 });
@@ -1349,7 +1379,20 @@ fn fanout_of(tr: &[Value], full: bool) -> u64 {
 pub fn run_behaviour(idx: usize, b: &Value, seed: u64, var: u64) -> Value {
     let hist: Vec<Value> = b["hist"].as_array().cloned().unwrap_or_default();
     let mut rng = Rng::new(seed.wrapping_mul(1_000_003).wrapping_add(idx as u64));
-    let conc = Arc::new(Conc::new(&mut rng));
+    let mut conc = Conc::new(&mut rng);
+    // identity variants: the vouched / cookie identity may share the NAME or the UUID with the claimed one (never both)
+    match var % 3 {
+        1 => {
+            conc.other.name = conc.claimed.name.clone();
+            conc.cookie.name = conc.claimed.name.clone();
+        }
+        2 => {
+            conc.other.id = conc.claimed.id;
+            conc.cookie.id = conc.claimed.id;
+        }
+        _ => {}
+    }
+    let conc = Arc::new(conc);
     let mut jar = Jar { auth: None, sess: None };
     let mut rounds_out = vec![];
     for (k, round) in hist.iter().enumerate() {
@@ -1456,7 +1499,7 @@ pub fn main_timed(args: &[String]) {
                 }
                 let rec = &recs[k];
                 let mut tm = Timed::from_json(&rec["sched"]);
-                for key in ["seg", "wstall", "wsplit", "plugin"] {
+                for key in ["seg", "wstall", "wsplit", "plugin", "pipeline"] {
                     // these may also sit next to "sched"
                     if rec.get(key).is_some() {
                         let mut merged = rec["sched"].clone();
@@ -1466,12 +1509,16 @@ pub fn main_timed(args: &[String]) {
                         tm.wstall = tm.wstall.or(t2.wstall);
                         tm.wsplit = tm.wsplit.or(t2.wsplit);
                         tm.plugin = tm.plugin.or(t2.plugin);
+                        tm.pipeline = tm.pipeline.or(t2.pipeline);
                     }
                 }
                 let var = run_timed(k, rec, seed, tm.clone());
                 let mut o = json!({"line": k + 1, "sched": rec["sched"], "seg": rec.get("seg").cloned().unwrap_or(json!("none")),
                                    "wstall": rec.get("wstall").cloned().unwrap_or(json!("none")), "wsplit": rec.get("wsplit").cloned().unwrap_or(json!(0)), "stalled": rec.get("wstall").is_some(),
-                                   "obs": var["obs"], "result": var["result"], "why": var["why"], "panic": var["panic"], "hang": var["hang"], "leftover": var["leftover"]});
+                                   "obs": var["obs"], "result": var["result"], "why": var["why"], "panic": var["panic"], "hang": var["hang"], "leftover": var["leftover"],
+                                   "i": k, "var": 0,
+                                   "hist": [{"secret": "none", "rc": {"ip": "first", "age": "first", "secret": "first"}, "obs": var["obs"], "result": var["result"],
+                                             "panic": var["panic"], "hang": false, "ranAfterEof": false, "maxAlloc": 0, "maxLen": 10000}]});
                 if pair {
                     // reference: the same actions, the segmented frame delivered whole at the time its last byte arrives, transport accepts whole writes
                     let mut rf = tm.clone();
@@ -1480,6 +1527,7 @@ pub fn main_timed(args: &[String]) {
                     }
                     rf.wstall = None;
                     rf.wsplit = None;
+                    rf.pipeline = None;
                     let r = run_timed(k, rec, seed, rf);
                     o["ref"] = json!({"obs": r["obs"], "result": r["result"], "why": r["why"], "panic": r["panic"]});
                 }
